@@ -43,6 +43,9 @@ CLAIMS = {
          "reached, nothing invented, wire form / model / bounds / signatures unchanged, idempotent; Hugr.resolve_extensions touches only custom nodes.", "§6 C11"),
  "C14": ("Every helper-built value expression (depth <= 1/2; int widths, array/list/static-array constants, function constants) checked against a "
          "transcription of hugr-core's Value::validate / SumType::check_type; Const static port and LoadConstant agree with the reported type.", "§6 C14"),
+ "C17": ("SMT (z3) equivalence, per $defs entry, of each of the four published schema files with the schema regenerated from the current pydantic models "
+         "under the same config; $ref handled coinductively, so the verdict covers documents of any size; every difference is concretised and must be "
+         "confirmed by jsonschema on both documents before it is reported; defaults / discriminators / required sets / version string compared too.", "§6 C17"),
 }
 NA_PENDING = "not yet built in this session (design in DESIGN.md §6); no claim is made"
 def main():
